@@ -189,10 +189,17 @@ func (m *Monitor) Block(h, version int64, raw [][]byte, res []sim.TxRes, afterDu
 		txs[i] = decodeTx(raw[i])
 	}
 	ok := func(i int) bool { return i < len(res) && res[i].Code == 0 }
+	// the price options change either inside the block (a delivered, successful PROPOSAL_FINALIZE: the transactions
+	// behind it see the new ones) or at its end (the block hook: every transaction of the block still sees the old ones)
 	optSets := []Opts{before.opts}
 	if !before.opts.equal(after.opts) {
-		optSets = append(optSets, after.opts)
 		m.OptionChanges++
+		for i, t := range txs {
+			if t.Kind == "PROPOSAL_FINALIZE" && ok(i) {
+				optSets = append(optSets, after.opts)
+				break
+			}
+		}
 	}
 	bases := []int64{version, h}
 	if version == h {
